@@ -335,8 +335,12 @@ def replay(path):
         cls = None
         for mod in ('cryptoparser.httpx.header', 'cryptoparser.dnsrec.txt'):
             cls = cls or getattr(importlib.import_module(mod), r['class'], None)
-        c, v = parse(cls, r['canonical']), parse(cls, r['variant'])
-        print('canonical %r -> %s\nvariant   %r -> %s' % (r['canonical'], show(c), r['variant'], show(v)))
+        c = parse(cls, r['canonical'])
+        variant = r['variant']
+        if r.get('rule') == 'composed' and c[0] == 'ok' and not show(c).startswith('<'):
+            variant = show(c)        # the spelling compose writes on the tree the replay runs on, not the one recorded
+        v = parse(cls, variant)
+        print('canonical %r -> %s\nvariant   %r -> %s' % (r['canonical'], show(c), variant, show(v)))
         ok = same(cls, c, v, r['rule'])
     elif 'block' in r:
         from cryptoparser.httpx import header as h
